@@ -57,9 +57,9 @@ Definition set_rd (st : sd) (r : reader) : sd :=
 Definition set_err (st : sd) (e : option derr) : sd :=
   {| buf := buf st; cap := cap st; scanp := scanp st; scanned := scanned st; err := e; rd := rd st; pcap := pcap st |}.
 
-(* func (self *StreamDecoder) setErr(err error) *)
+(* func (self *StreamDecoder) setErr(err error): the buffer is released and what was scanned is folded into `scanned` *)
 Definition setErr (e : derr) (st : sd) : sd :=
-  {| buf := []; cap := 0; scanp := scanp st; scanned := scanned st; err := Some e; rd := rd st; pcap := pcap st |}.
+  {| buf := []; cap := 0; scanp := 0; scanned := scanned st + scanp st; err := Some e; rd := rd st; pcap := pcap st |}.
 
 (* func realloc(buf *[]byte) bool : only the capacity changes (the first len bytes are copied) *)
 Definition realloc_cap (l c pc : nat) : nat :=
